@@ -923,6 +923,16 @@ func coreCases() []Case {
 	sInline := findSeed(1000, func(s *Source) bool { return single(s) && s.HasInlineCfg && s.HasInlineLayer })
 	idxInline := findSeed(1000, func(s *Source) bool { return s.HasInlineChild })
 	sStrip := findSeed(1000, func(s *Source) bool { return single(s) && s.HasStripFile && s.HasNames && s.HasInnerTar })
+	// sources built with a fixed epoch (every tar entry carries the same time) and packed by another tool
+	// (other gzip levels): a time step naming exactly that time has nothing to change
+	uni := func(s *Source) bool { return s.UniformTime && s.Comps["gzip"] && plain(s) && !s.HasBase }
+	from := int64(1000)
+	for k := 0; k < 4; k++ {
+		sUni := findSeed(from, uni)
+		from = sUni + 1
+		tgt := []string{"same-digest", "other-repo", "layout", "same-newtag"}[k]
+		add("noop-layer-time-on-uniform-source", sUni, []string{"reg", "reg", "reg", "dir"}[k], tgt, Opt{Kind: "layer-time", Set: tUniformStr, Noop: true})
+	}
 	for _, t := range []string{"same-digest", "same-newtag", "replace", "other-repo", "other-reg", "layout"} {
 		add("empty-program", sOCI, "reg", t)
 		add("empty-program-index", idxDocker, "reg", t)
